@@ -139,7 +139,7 @@ ADD = {
                 text=' About the executable loop model (Proofs/C10Loop.lean): every iterate has |u| = |beta|; when the loop leaves through its tolerance test |g(x)| < tol |grad G|; the whole loop (outcome, number of steps, every iterate) is invariant under positive rescaling of g; for a linear limit state of normal variables with any correlation the loop RETURNS for every iter >= 1 and tol > 0 with beta = (d + sum c_i mu_i) / |L^T D c|, the design point on the limit state, |L^T D c|^2 = c^T D rho D c when L L^T = rho; no feasible point of the constrained formulation is closer to the origin (agreement with coptFORM); for L = 1 this is the regenerated mvalFOSM index (fosmBeta_eq).',
                 note=' The executable loop model is compared with hlrfFORM on random problems (normal / lognormal marginals, linear and quadratic limit states, random tol / iter): outcome, number of iterations, every evaluation point, beta, uCoord, xCoord at 1e-7 relative (looser only where the implementation itself loses the upper tail, DESIGN 7).'),
     'C11': dict(technique=' + Lean 4 proof about an EXECUTABLE model of the transformation for normal / lognormal marginals including its own Cholesky factorisation and triangular inverse (Model/{Chol,Nataf}.lean), compared with the implementation (L, L^-1, rhoZ, getU, getX, both matrices)',
-                text=' About the executable model (Proofs/C11Chol.lean, C11Model.lean): the outer-product Cholesky algorithm returns a lower-triangular L with positive diagonal and L L^T = A for every symmetric A with positive pivots; forward substitution returns X with L X = X L = 1; for the model built from them X->U->X and U->X->U are the identity on the support, the two returned matrices are inverse to each other, each is entrywise the partial derivative (HasDerivAt) of the other map; lognormal pair: the closed-form latent correlation reproduces the prescribed one.',
+                text=' About the executable model (Proofs/C11Chol.lean, C11Model.lean): the outer-product Cholesky algorithm returns a lower-triangular L with positive diagonal and L L^T = A for every symmetric A with positive pivots, and on every symmetric positive-definite A all pivots are positive (chol_pivots_of_posdef); forward substitution returns X with L X = X L = 1; for the model built from them X->U->X and U->X->U are the identity on the support, the two returned matrices are inverse to each other, each is entrywise the partial derivative (HasDerivAt) of the other map; lognormal pair: the closed-form latent correlation reproduces the prescribed one.',
                 note=' The executable model is compared with NatafTransformation on random problems: L 1e-11, L^-1 1e-9, getU / getX 1e-8, returned matrices 1e-7, closed-form latent correlation vs rhoZ 2e-6.'),
     'C12': dict(technique=' + an EXECUTABLE model of the curvature extraction (Model/SormPipe.lean) compared with mainCurvaturesAtDesignPoint through the eigenvalues of its block + the three closing formulas REGENERATED from the numpy vector expressions of the source on every run (harness/translate_vec.py) and proved equal to the model for every scalar type',
                 text=' breitungPf_eq / tvedtPf_eq / hrackPf_eq: the definitions regenerated from the source text are the model definitions the theorems are about (for every scalar instance, so also for the Float instance evaluated against the implementation).',
